@@ -18,9 +18,11 @@
       discharged by  At := Cx.Proofs.Stream.Abs mk (Spec.ChaCha.blockAt R key nonce)  with
       Cx.Proofs.Stream.process_mut_refines, Cx.Proofs.Stream.mk_abs (n = 0), Cx.Proofs.Stream.block_length
       (for validKey key, nonce.length = 12, validRounds R; engines: referenceSim / sse2Sim).
+      DONE: `Cx.Proofs.Aead.cipherDeps` / `with_cipher` in Proofs/AeadDeps.lean.
     `MacDeps` — Poly1305 = RFC 8439 §2.5 for every chunking, without panic (C05):
         mac_eq          new; one `input` per chunk; raw_result  =  Spec.Poly1305.mac key (concatenation)
-      discharged by the poly1305 unit's C05 theorem on `Impl.Poly1305.mac`.
+      discharged by the poly1305 unit's C05 theorem `Cx.Proofs.Poly1305.mac_eq`.
+      DONE: `Cx.Proofs.Aead.macDeps` in Proofs/AeadDeps.lean.
 -/
 import CxVerif.Impl.Aead
 import CxVerif.Proofs.AeadBytes
